@@ -491,9 +491,9 @@ impl Bdd {
             return Some(false);
         }
         if self.is_zero(g) && h == f {
-            debug!("ite(F,0,F) => F");
-            // return f;
-            return None;
+            debug!("ite(F,0,F) => 0");
+            // return self.zero;
+            return Some(false);
         }
 
         // TODO: standard triples?
@@ -501,8 +501,7 @@ impl Bdd {
         let key = OpKey::Ite(f, g, h);
         if let Some(&res) = self.cache().get(&key) {
             debug!("cache: ite_constant(f = {}, g = {}, h = {}) -> {}", f, g, h, res);
-            assert!(!self.is_terminal(res));
-            return None;
+            return self.maybe_constant(res);
         }
 
         let i = self.variable(f.index());
@@ -533,7 +532,7 @@ impl Bdd {
             return None;
         }
         let e = self.ite_constant(f0, g0, h0);
-        if e != Some(true) {
+        if e != t {
             return None;
         }
         t
